@@ -351,6 +351,9 @@ func (n *WorkflowNode) checkAndAddMappedPath(paths []FieldPath) error {
 			return fmt.Errorf("entire output has already been mapped for node: %s", n.key)
 		}
 
+		// two spellings of one field (promoted from an embedded struct, or reached through it) must meet in the trie
+		targetPath = canonicalTargetPath(n.g.getNodeInputType(n.key), targetPath)
+
 		if len(targetPath) == 0 {
 			// mapping to the entire input conflicts with every other mapping of this node
 			if len(m) > 0 {
@@ -388,6 +391,45 @@ func (n *WorkflowNode) checkAndAddMappedPath(paths []FieldPath) error {
 	}
 
 	return nil
+}
+
+// canonicalTargetPath spells out the fields of a target path that are promoted from embedded structs: with
+// type T struct{ Base }, the path {"X"} to the field X of Base becomes {"Base", "X"}. Whatever cannot be walked
+// through typ is kept as it is (the static check of the mapping reports it).
+func canonicalTargetPath(typ reflect.Type, path FieldPath) FieldPath {
+	canonical := make(FieldPath, 0, len(path))
+	for i, field := range path {
+		if typ == nil {
+			return append(canonical, path[i:]...)
+		}
+
+		if typ.Kind() == reflect.Map {
+			canonical = append(canonical, field)
+			typ = typ.Elem()
+			continue
+		}
+
+		if typ.Kind() == reflect.Ptr {
+			typ = typ.Elem()
+		}
+
+		if typ.Kind() != reflect.Struct {
+			return append(canonical, path[i:]...)
+		}
+
+		f, ok := typ.FieldByName(field)
+		if !ok {
+			return append(canonical, path[i:]...)
+		}
+
+		for j := 1; j < len(f.Index); j++ {
+			canonical = append(canonical, typ.FieldByIndex(f.Index[:j]).Name)
+		}
+		canonical = append(canonical, field)
+		typ = f.Type
+	}
+
+	return canonical
 }
 
 type WorkflowBranch struct {
